@@ -247,6 +247,16 @@ func validPortable(c *Ctx) ([]byte, *ISet, *specInfo) {
 	r := c.R
 	o := GenOpts{MaxChunks: 5, HeavyP: 0.25}
 	m, _ := genSet(r, o)
+	if r.Chance(0.12) {
+		// 1..150 small chunks
+		n := 1 + r.Intn(150)
+		m = NewISet()
+		base := r.Range(0, 65535-uint64(n))
+		for k := uint64(0); k < uint64(n); k++ {
+			lo := (base+k)<<16 | r.Range(0, 65000)
+			m.AddRange(lo, lo+r.Range(0, 5))
+		}
+	}
 	if m.IsEmpty() && r.Chance(0.8) {
 		m.Add(r.Range(0, max32))
 	}
@@ -331,7 +341,7 @@ func corruptPortable(r *Rng, w []byte, info *specInfo) ([]byte, string) {
 		return cs[r.Intn(len(cs))], true
 	}
 	for tries := 0; tries < 20; tries++ {
-		switch r.Intn(22) {
+		switch r.Intn(23) {
 		case 0:
 			binary.LittleEndian.PutUint32(b, uint32(r.Uint64()))
 			return b, "cookie-random"
@@ -428,6 +438,13 @@ func corruptPortable(r *Rng, w []byte, info *specInfo) ([]byte, string) {
 				}
 				put16(b, ch.Off+2+4*i+2, nxt-st+r.Intn(3)) // overlapping
 				return b, "runs-overlapping"
+			}
+		case 22:
+			if ch, ok := pickChunk("run"); ok && ch.NRuns >= 2 {
+				i := r.Intn(ch.NRuns - 1)
+				st := get16(b, ch.Off+2+4*i)
+				put16(b, ch.Off+2+4*i+2, 65535-st) // longest non-wrapping run: swallows all later runs
+				return b, "run-covers-all-later-runs"
 			}
 		case 14:
 			if info.Cookie == cookieRun && n >= 1 {
@@ -593,7 +610,12 @@ func corruptFrozen(r *Rng, w []byte, fi *frozenInfo) ([]byte, string) {
 			if runEls >= 1 {
 				i := r.Intn(runEls)
 				st := get16(b, runStart+4*i)
-				switch r.Intn(4) {
+				switch r.Intn(5) {
+				case 4:
+					if i+1 < runEls {
+						put16(b, runStart+4*i+2, 65535-st)
+						return b, "run-covers-all-later-runs"
+					}
 				case 0:
 					put16(b, runStart+4*i+2, 65535-st+1+r.Intn(st+1))
 					return b, "run-wraps-past-65535"
